@@ -21,7 +21,7 @@ PROPS = {
         explanation='verified exhaustive exploration of an abstract two-party AKE system (Otr.AkeAbs, explore_sound) decides liveness for every start pattern and every delivery schedule; the abstraction is tied to the implementation by running every maximal schedule of every pattern on the real code (both versions) and comparing final states',
         assumptions=['time is frozen within an exchange (the 60 s repeat-query window does not expire)', 'cryptographic checks are abstracted to identifier equality', 'known finding: simultaneous start deadlocks (test-pinned)']),
     'C05': dict(
-        module='Props.C05', level='proof',
+        module='Props.C05', extra_modules=['Props.C05Net'], level='proof',
         profiles=dict(quick=[('sched', 12, 1), ('frag', 6, 1)], thorough=[('sched', 60, 8), ('schedx', 300, 1), ('life', 150, 4)]),
         explanation='theorem over all histories of the key-management context (Props.C05: once accepted, a (key ids, counter) triple is rejected for ever; sender counters strictly increase); model tied to key_management.go / data_message.go by whole-session differential runs; Go oracle replays recorded data messages at later points (same pair, after rotations) and checks nothing is delivered or answered',
         assumptions=['key ids < 2^32, counters < 2^64 (no wrap-around)', 'cross-session replay relies on fresh DH keys per session (not a theorem; exercised by the life profile)']),
@@ -31,10 +31,10 @@ PROPS = {
         explanation='theorems over all histories (Props.C09: every disclosed key belongs to a retired pair that can never be accepted under again; used keys are queued when their pair retires and the next data message carries the whole queue); Go oracle recomputes the receiving MAC keys of the discloser window from the real DH keys at every outgoing data message and tracks keys used to accept messages until disclosed',
         assumptions=['the MAC key of a pair is identified by the pair (same DH keys within a session)']),
     'C19': dict(
-        module='Props.C19', extra_modules=['Props.C19Api'], level='proof',
+        module='Props.C19', extra_modules=['Props.C19Api', 'Props.C19Two'], level='proof',
         profiles=dict(quick=[('sched', 12, 1), ('mem', 5, 1)], thorough=[('sched', 80, 8), ('life', 150, 4), ('mem', 60, 4)]),
         explanation='theorems over all histories (Props.C19: at most 4 counters and 4 MAC-history entries, reveal queue at most 3 keys per message accepted since the last send and emptied by each send); Go oracle measures counters, MAC history, reveal queue, resend queue, injections and the reveal field of every emitted message along long runs',
-        assumptions=['session-wide constant for the reveal queue is a two-party fact, measured not proved', 'heap size beyond the modelled lists is not measured here (see C08)']),
+        assumptions=['the session-wide constant 3 for the reveal queue is proved for two honest parties over reliable FIFO channels (Props.C19Two); with a peer that moves on to its announced key with every message the queue grows until our next send', 'heap size beyond the modelled lists is not measured here (see C08)']),
     'C15': dict(
         module='Props.C15', level='proof',
         profiles=dict(quick=[('tags', 40, 1), ('reject', 60, 1)], thorough=[('tags', 200, 6), ('reject', 400, 6)]),
@@ -92,7 +92,7 @@ PROPS = {
         assumptions=['copies made and dropped inside a single call, registers, stack and GC relocation are not visible to the scan', 'known finding: SMP exponents dropped without zeroing (test-pinned)']),
     'C20': dict(
         module='Props.C20', level='other',
-        profiles=dict(quick=[('conc', 6, 1), ('life', 15, 1)], thorough=[('conc', 24, 4), ('life', 150, 2)]),
+        profiles=dict(quick=[('conc', 6, 1), ('life', 15, 1), ('lifecycle', 8, 1)], thorough=[('conc', 24, 4), ('life', 150, 2), ('lifecycle', 60, 4)]),
         explanation='lemma in a model of Go slices (append on a len=cap slice never writes the shared backing array) + regenerated facts (no package-level variable written outside init; which package slices are append prefixes) + run-time check len=cap of those slices + N conversation pairs on goroutines under the race detector, each transcript compared with the same pair run alone; the Go memory model itself is not formalised, hence level other',
         assumptions=['data races are detected dynamically by the Go race detector on the schedules that occur', 'each pair uses its own copy of the long-term key object']),
     'C04': dict(
